@@ -13,7 +13,7 @@ import ast
 from z3 import *
 from pyvc.core import *
 
-PROPS = ['C20']
+PROPS = ['C20']          # the 'raises only SecurityError' clause also serves C19 (loading a stored error never fails otherwise)
 REPLAY = {'driver': 'ser', 'parts': ['gate']}
 REL = 'taskiq/serialization.py'
 TRUSTED = [
@@ -105,7 +105,7 @@ def generate(src):
         exits['raise'] += 1
         oblige(s, "exception_to_python/raises: an unresolvable type never ends in an error - it yields the synthetic class  [C20]",
                Implies(CLS.sub_expr(s.heap.cls_of[Val.a(x)], 'SecurityError'), Or(s.ghost.get('from_recursion', BoolVal(False)), Not(Or(s.ghost['lookup_failed'], s.heap.field('exc_module')[Val.a(exc)] == Val.none)))))
-        oblige(s, "exception_to_python/raises: only SecurityError (or a non-Exception BaseException from a user constructor)  [C20]", Or(CLS.sub_expr(s.heap.cls_of[Val.a(x)], 'SecurityError'), Not(CLS.sub_expr(s.heap.cls_of[Val.a(x)], 'Exception'))))
+        oblige(s, "exception_to_python/raises: loading fails only with SecurityError (a constructor that rejects its stored arguments yields the generic stand-in), or a non-Exception BaseException from a user constructor  [C19/C20]", Or(CLS.sub_expr(s.heap.cls_of[Val.a(x)], 'SecurityError'), Not(CLS.sub_expr(s.heap.cls_of[Val.a(x)], 'Exception'))))
     ex.run(fdef, st, on_ret, on_exc)
     src.note_paths('::exception_to_python', sum(exits.values()))
     # ---------------- create_exception_cls / subclass_exception: the result is a new class derived from an Exception subclass
